@@ -314,6 +314,9 @@ impl Prop for C02 {
     let l = lunlist();
     match t {
       "s2l" => {
+        // route equivalence of the objects this property reads (see routes.rs)
+        prop_run(env, out, "routes", env.tier.pick(1600, 64000) / nshards as u32, 8800 + shard as u64, crate::routes::date_strategy(), &ev);
+        out.set_exhaustive("routes", false);
         // strided walks on fresh threads (see engine::stride_walks)
         stride_walks(env, out, "s2l", env.tier.pick(1600, 48000) / nshards as u32, 7000 + shard as u64, 0, (crate::model::NDAYS as i64), 800, &|x| vec![x], &ev);
         let (lo, hi) = shard_range(NDAYS, shard, nshards);
@@ -438,6 +441,7 @@ impl Prop for C02 {
       "l2s" => self.eval_l2s(env, out, case),
       "order" => self.eval_order(env, out, case),
       "lnext" => self.eval_lnext(env, out, case),
+      "routes" => crate::routes::compare_day_routes(env, out, "routes", case, (case.a[0].clamp(0, crate::model::NDAYS as i64 - 1)) as usize, &crate::routes::fields_c02),
       _ => panic!("unknown sub-check {}", sub),
     }
   }
